@@ -112,6 +112,25 @@ def run(tier):
         s = flat(segs)
         if s:
             cases.append(("rnd", pre, rand_chunking(r, s), segs))
+    # messages larger than 64 KiB (the size field has four bytes; counters of the fragment buffer must not be 16 bit wide):
+    # chunk boundaries that leave exactly 65536 * k bytes buffered, power-of-two reads, a header split in the middle
+    combos = [(70000, "4096"), (70000, "split-header"), (131064, "65536"), (65536, "16384"), (65529, "8192"), (70000, "65535"), (140000, "4096"), (65528, "1000")]
+    for i in range(16 if thorough else 5):
+        pre = r.choice(PREAMBLES)
+        p0, p1 = pre & 0xFF, pre >> 8
+        n, how = combos[i] if i < len(combos) else (r.choice([65528, 65536, 70000, 131064, 65529]), r.choice(["4096", "8192", "16384", "65536", "split-header", "65535", "1000"]))
+        payload = [((j * 7 + i) % 251) for j in range(n)]        # no accidental preamble pairs needed; 251 is prime
+        big = [p0, p1, 0x34, 0x12, n & 0xFF, (n >> 8) & 0xFF, (n >> 16) & 0xFF, 0] + payload
+        tail_segs = rand_stream(r, pre, 2, maxpay=8, maxfill=0)
+        segs = [("m", big)] + tail_segs
+        stream = flat(segs)
+        if how == "split-header":
+            ch = [stream[:5], stream[5:65536], stream[65536:]]
+        else:
+            step = int(how)
+            ch = [stream[k:k + step] for k in range(0, len(stream), step)]
+        cases.append(("big", pre, ch, segs))
+        oc.stat("messages_larger_than_64KiB")
     for i in range(6000 if thorough else 800):
         pre = r.choice(PREAMBLES)
         p0, p1 = pre & 0xFF, pre >> 8
@@ -152,7 +171,7 @@ def run(tier):
             k = len(out)
             kind, pre, ch, segs = cases[min(k, len(cases) - 1)]
             v = dict(what="memory error / abort in the %s build (exit %s) on input line %d: %s" % (name, rc, k, err[-400:]), input=lines[min(k, len(lines) - 1)], kind=kind)
-            if kind in ("exh", "rnd", "raw"):
+            if kind in ("exh", "rnd", "raw", "big"):
                 oc.violations.append(v)
             else:
                 oc.corr_failures.append(v)   # malformed stream: outside the property's domain, still reported
